@@ -631,21 +631,16 @@ static void DecodeEmulOneToTwo(Word Code) {
            complain on displacement overflow: */
 
         else if ((DestParts.Mode == eModeRegDisp) && (DestParts.Part == RegPC)) {
-            LongWord NewDist = DestParts.Val - 2;
+            /* two less, modulo 64K like the addresses themselves: 'add x,x' reaches
+               every address from everywhere, so does its short form */
 
-            /* two less: only a negative displacement can leave the range, a small
-               positive one just becomes negative */
-
-            if ((DestParts.Val & 0x8000) && !(NewDist & 0x8000)) {
-                WrError(ErrNum_DistTooBig);
-                return;
-            }
-            DestParts.Val = NewDist;
+            DestParts.Val = (DestParts.Val - 2) & 0xffff;
         }
 
         /* transform 0(Rn) as Dest back to @Rn as Src: */
 
-        else if ((SrcParts.Mode == eModeRegDisp) && (DestParts.Val == 0)) {
+        else if ((SrcParts.Mode == eModeRegDisp) && (DestParts.Val == 0) && !SrcParts.WasAbs) {
+            /* (not for the absolute address 0: '@SR' is the constant 4) */
             SrcParts.Mode = eModeIReg;
             SrcParts.Cnt  = 0;
         }
@@ -747,7 +742,8 @@ static void DecodeEmulOneToTwoX(Word Code) {
 
         /* transform 0(Rn) as Dest back to @Rn as Src: */
 
-        else if ((SrcParts.Mode == eModeRegDisp) && (DestParts.Val == 0)) {
+        else if ((SrcParts.Mode == eModeRegDisp) && (DestParts.Val == 0) && !SrcParts.WasAbs) {
+            /* (not for the absolute address 0: '@SR' is the constant 4) */
             SrcParts.Mode = eModeIReg;
             SrcParts.Cnt  = 0;
         }
